@@ -111,6 +111,42 @@ pub fn check_transition_assigned(
     (out, true)
 }
 
+/// Replays `history` then `op` on real WeakDoms (history replay or fresh construction of the
+/// source state) and hands back the real objects with the model of the resulting state.
+pub fn run_to(history: &[Op], op: &Op, path: PathKind) -> Option<(Real, Model)> {
+    let mut model = Model::new();
+    let mut real = match path {
+        PathKind::History => {
+            let mut real = Real::new();
+            for h in history {
+                let before = model.clone();
+                let effect = model.apply(h);
+                let sets = if effect.regenerated.is_empty() { [HashSet::new(), HashSet::new()] } else { real.uid_sets(&before) };
+                if real.apply(h, &before, &model, &effect).is_err() {
+                    return None;
+                }
+                let mut sink = Vec::new();
+                real.bind_fresh(&sets, &model, &effect, &mut sink);
+            }
+            real
+        }
+        PathKind::Fresh => {
+            for h in history {
+                model.apply(h);
+            }
+            Real::build_fresh(&model)
+        }
+    };
+    let before = model.clone();
+    let effect = model.apply(op);
+    if real.apply(op, &before, &model, &effect).is_err() {
+        return None;
+    }
+    let mut sink = Vec::new();
+    real.bind_fresh(&[HashSet::new(), HashSet::new()], &model, &effect, &mut sink);
+    Some((real, model))
+}
+
 pub struct Stats {
     pub states: u64,
     pub transitions: u64,
